@@ -62,7 +62,15 @@ type run18 struct {
 	mu        sync.Mutex
 	modelIn   []string // canonical snapshot of every model call's input
 	toolCalls []string // "tool(args)#id" in invocation order
+	toolOpts  []string // tags carried by the tool options each tool invocation received (C09)
 	tag       string
+}
+
+// tOpt18 is the implementation-specific tool option of the harness tools: it collects tags.
+type tOpt18 struct{ tags []string }
+
+func tagToolOpt(tag string) tool.Option {
+	return tool.WrapImplSpecificOptFn(func(o *tOpt18) { o.tags = append(o.tags, tag) })
 }
 
 type run18Key struct{}
@@ -204,9 +212,11 @@ func (t *tool18) Info(ctx context.Context) (*schema.ToolInfo, error) {
 
 func toolOut18(name, args string) string { return name + "<" + args + ">" }
 
-func (t *tool18) note(ctx context.Context, args string) {
+func (t *tool18) note(ctx context.Context, args string, opts ...tool.Option) {
 	if r, _ := ctx.Value(run18Key{}).(*run18); r != nil {
+		o := tool.GetImplSpecificOptions(&tOpt18{}, opts...)
 		r.mu.Lock()
+		r.toolOpts = append(r.toolOpts, strings.Join(o.tags, "+"))
 		r.toolCalls = append(r.toolCalls, fmt.Sprintf("%s(%s)#%s", t.name, args, compose.GetToolCallID(ctx)))
 		r.mu.Unlock()
 	}
@@ -215,14 +225,14 @@ func (t *tool18) note(ctx context.Context, args string) {
 type invTool18 struct{ tool18 }
 
 func (t *invTool18) InvokableRun(ctx context.Context, args string, opts ...tool.Option) (string, error) {
-	t.note(ctx, args)
+	t.note(ctx, args, opts...)
 	return toolOut18(t.name, args), nil
 }
 
 type strTool18 struct{ tool18 }
 
 func (t *strTool18) StreamableRun(ctx context.Context, args string, opts ...tool.Option) (*schema.StreamReader[string], error) {
-	t.note(ctx, args)
+	t.note(ctx, args, opts...)
 	o := toolOut18(t.name, args)
 	return schema.StreamReaderFromArray([]string{o[:len(o)/2], o[len(o)/2:]}), nil
 }
